@@ -1552,3 +1552,36 @@ MUTANTS[-1]["then"] = ("""		s.joinMu.Lock()
 		s.join = func(room ...Room) {}
 		s.joinMu.Unlock()
 		wg.WaitTimeout(10 * time.Second)""", """		wg.WaitTimeout(10 * time.Second)""")
+
+# ---------------------------------------------------------------- C02 (round 2)
+mutant("c02-polling-onpacket-in-goroutine", "C02", "C02-D6", "engine.io/transport/polling/server.go",
+       "	t.callbacks.OnPacket(packets...)\n\n	t.setHeaders(w, r)", "	go t.callbacks.OnPacket(packets...)\n\n	t.setHeaders(w, r)")
+mutant("c02-websocket-onpacket-go-closure", "C02", "C02-D6", "engine.io/transport/websocket/server.go",
+       "		t.callbacks.OnPacket(packet)", "		go func() { t.callbacks.OnPacket(packet) }()")
+mutant("c02-polling-answer-before-onpacket", "C02", "C02-D6", "engine.io/transport/polling/server.go",
+       """	t.callbacks.OnPacket(packets...)
+
+	t.setHeaders(w, r)
+	wh := w.Header()
+
+	// text/html is required instead of text/plain to avoid an
+	// unwanted download dialog on certain user-agents (GH-43)
+	wh.Set("Content-Type", "text/html")
+	wh.Set("Content-Length", "2")
+	w.WriteHeader(200)
+	w.Write(ok)
+}""",
+       """	t.setHeaders(w, r)
+	wh := w.Header()
+
+	// text/html is required instead of text/plain to avoid an
+	// unwanted download dialog on certain user-agents (GH-43)
+	wh.Set("Content-Type", "text/html")
+	wh.Set("Content-Length", "2")
+	w.WriteHeader(200)
+	w.Write(ok)
+	if f, isF := w.(http.Flusher); isF {
+		f.Flush()
+	}
+	t.callbacks.OnPacket(packets...)
+}""")
